@@ -80,3 +80,99 @@ class Cmap12Compile(Contract):
         return And(*cs)
 
     ensures = [prop("independent-reader-recovers-the-map", lambda a, old, r: Cmap12Compile._post(a, r))]
+
+
+# -- cmap format 4 (segment mapping to delta values) ------------------------------------------------
+
+REBIND4 = std("struct", "len", "bytes", "int", "array", "bytesjoin", "range")
+
+
+def spec_cmap4_lookup(bs, c):
+    """OpenType cmap format 4 lookup of character code c in the compiled bytes -> glyph id term
+    (0 when unmapped).  Only the lengths are concrete; all values are spec terms."""
+    segX2 = be(bs[6:8])
+    segX2c = segX2 if isinstance(segX2, int) else segX2.concrete()
+    seg = segX2c // 2
+    end = [be(bs[14 + 2 * i:16 + 2 * i]) for i in range(seg)]
+    o = 14 + 2 * seg + 2
+    start = [be(bs[o + 2 * i:o + 2 * i + 2]) for i in range(seg)]
+    o += 2 * seg
+    delta = [be(bs[o + 2 * i:o + 2 * i + 2]) for i in range(seg)]
+    o += 2 * seg
+    ro_pos = o
+    roff = [be(bs[o + 2 * i:o + 2 * i + 2]) for i in range(seg)]
+    words = (len(bs) - ro_pos) // 2                  # idRangeOffset[] followed by glyphIdArray[]
+    word = [be(bs[ro_pos + 2 * j:ro_pos + 2 * j + 2]) for j in range(words)]
+
+    def at(idx):
+        """word[idx] for a symbolic idx"""
+        out = 0
+        for j in range(words):
+            out = Ite(eq(idx, j), word[j], out)
+        return out
+    result, found = 0, False
+    for i in range(seg):
+        hit = And(Not(found), end[i] >= c)           # first segment whose endCode >= c
+        inside = start[i] <= c
+        direct = (c + delta[i]) % 65536
+        g = at(i + roff[i] // 2 + (c - start[i]))    # &idRangeOffset[i] + idRangeOffset[i]/2 words + (c - start)
+        indirect = Ite(eq(g, 0), 0, (g + delta[i]) % 65536)
+        val = Ite(inside, Ite(eq(roff[i], 0), direct, indirect), 0)
+        result = Ite(hit, val, result)
+        found = Or(found, end[i] >= c)
+    return result, (seg, end, start)
+
+
+@contract
+class Cmap4Compile(Contract):
+    """cmap format 4: for maps of 1..3 symbolic BMP code points and symbolic glyph ids (every
+    pattern of runs and gaps, consecutive and non-consecutive glyph ids), the compiled subtable
+    looked up as the OpenType specification prescribes gives every mapped code its glyph and
+    every other code glyph 0; header length and segment arrays are well formed (ascending end
+    codes, last segment 0xFFFF)."""
+    module = "fontTools.ttLib.tables._c_m_a_p"
+    qualname = "cmap_format_4.compile"
+    props = ("C02",)
+    rebind = REBIND4
+    variants = (1, 2, 3)
+    level = "PF"
+    max_paths = 60000
+
+    def variants_for(self, tier):
+        return (1, 2) if tier == "quick" else self.variants      # three code points: about 4 minutes
+
+    def args(self, S, variant):
+        n = variant
+        t = self.mod.cmap_format_4(4)
+        t.language = 0
+        t.data = None
+        order = [".notdef", "A", "B", "C", "D", "E", "F"]
+        codes = [S.int("code%d" % i, 0, 0xFFFE) for i in range(n)]
+        gids = [S.int("gid%d" % i, 1, 6) for i in range(n)]
+        names = []
+        for g in gids:
+            for k in range(1, 7):
+                if eq(g, k):
+                    names.append(order[k])
+                    break
+        t.cmap = dict(zip(codes, names))
+        return dict(self=t, ttFont=_Font(order), _codes=codes, _gids=gids, _probe=S.int("probe", 0, 0xFFFF))
+
+    def requires(self, a):
+        c = a._codes
+        return And(*[Not(eq(c[i], c[j])) for i in range(len(c)) for j in range(i + 1, len(c))])
+
+    @staticmethod
+    def _wellformed(a, r):
+        bs = list(SymBytes.of(r).items)
+        _, (seg, end, start) = spec_cmap4_lookup(bs, 0)
+        return And(eq(be(bs[0:2]), 4), eq(be(bs[2:4]), len(bs)), eq(end[-1], 0xFFFF), eq(start[-1], 0xFFFF),
+                   *[And(start[i] <= end[i]) for i in range(seg)], *[end[i] < start[i + 1] for i in range(seg - 1)])
+
+    ensures = [
+        prop("spec-lookup-gives-every-mapped-code-its-glyph", lambda a, old, r: And(*[
+            eq(spec_cmap4_lookup(list(SymBytes.of(r).items), c)[0], g) for c, g in zip(a._codes, a._gids)])),
+        prop("spec-lookup-gives-glyph-0-for-every-other-code", lambda a, old, r: Implies(
+            And(*[Not(eq(a._probe, c)) for c in a._codes]), eq(spec_cmap4_lookup(list(SymBytes.of(r).items), a._probe)[0], 0))),
+        prop("segments-well-formed", lambda a, old, r: Cmap4Compile._wellformed(a, r)),
+    ]
